@@ -8,6 +8,9 @@ CONSTANTS
   Interleave = FALSE
   Cfgs <- MCCfgsFork0
   OraclesFor <- MCOraclesA
-INVARIANTS TypeOK JobTimeRight JobCoversExactly NoSlotTwice OneJobPerDutySlot OnlyStrictlyLaterOnStart SyncWindowRight EpochTickOnce NoFutureDutyUnscheduled NoStaleJob ReorgActedOn
+  MaxAccts = 0
+  AnswersFor <- AllAnswers
+  Deviation = {}
+INVARIANTS TypeOK JobTimeRight JobCoversExactly NoSlotTwice OneJobPerDutySlot OnlyStrictlyLaterOnStart SyncWindowRight EpochTickOnce NoFutureDutyUnscheduled NoStaleJob ReorgActedOn RefreshCompletes
 CONSTRAINT NoOverlap
 CHECK_DEADLOCK FALSE
